@@ -352,7 +352,7 @@ def betty_stats(fm):
     st["Alternative relationships"] = len(alts)
     st["Subfeatures in or-relationships"] = sum(len(r.children) for r in ors)
     st["Subfeatures in alternative relationships"] = sum(len(r.children) for r in alts)
-    st["Maximum number of children in a set relationship"] = max([len(r.children) for r in rels if len(r.children) > 1] or [0])
+    st["Maximum number of children in a set relationship"] = max([len(r.children) for r in rels if len(r.children) > 1] or [1])  # Betty writes 1 when there is no set relationship
     st["Cross-tree constraints"] = len(fm.ctcs)
     from flamapy.core.models.ast import ASTOperation
     st["Requires constraints"] = sum(1 for c in fm.ctcs if c.ast.root.data == ASTOperation.REQUIRES)
